@@ -590,7 +590,7 @@ func absentKey(w *world, store string, r *hx.Rng) ([]byte, string) {
 }
 
 func famVerify(t *testing.T, r *hx.Rng, o *hx.Out) {
-	worlds := hx.N(5, 80)
+	worlds := hx.N(3, 60)
 	for wi := 0; wi < worlds; wi++ {
 		w := newWorld(t, r)
 		var stale *call // an honest call whose proof and root belong to the previous version
